@@ -299,6 +299,24 @@ example : combine (some "+A --B".toList) none = combine (some "+A".toList) (some
 -- greedy bag comparison on numbers modulo 3
 example : compareBags (fun a b : Nat => a % 3 == b % 3) [1, 2, 4, 9] [7, 3, 5, 5] = (1, 3, 1) := by decide
 
+/-- node `b` (a predication) has the roles `+A` and `--B`, both to `a` -/
+def gUnclean1 : IsoGraph :=
+  [("b", [(none, ['p']), (some "a", "+A --B".toList)]), ("a", [(none, ['x'])])]
+/-- `b` has the role `+A` to `a`, and `a` has the role `B` to `b` -/
+def gUnclean2 : IsoGraph :=
+  [("b", [(none, ['p']), (some "a", "+A".toList)]), ("a", [(none, ['x']), (some "b", "B".toList)])]
+
+/-- The side condition `cleanGraph` of the soundness theorems cannot be dropped: with a role literally
+named `--B` (next to `+A`, which sorts before it) two different structures receive the same augmented
+label on the only edge the matcher compares; the returned mapping is complete and accepted although
+the edge `a → b` exists on one side only.  (Real code: `is_isomorphic` answers `True` on
+`[p ARG0 x9, +A e1, --B e1][q ARG0 e1]` vs `[p ARG0 x9, +A e1][q ARG0 e1, B x9]`.) -/
+theorem cleanLabels_needed :
+    accept (vf2 (invMapRaw gUnclean1) (invMapRaw gUnclean2)) (invMapRaw gUnclean1) = true
+    ∧ (vf2 (invMapRaw gUnclean1) (invMapRaw gUnclean2)).length = gUnclean2.length
+    ∧ edge gUnclean1 "a" (some "b") ≠ edge gUnclean2 "a" (some "b")
+    ∧ cleanGraph gUnclean1 = false := by decide
+
 end Examples
 
 end Verif.C06
